@@ -35,6 +35,8 @@ fn pow2(e: i64) -> f64 {
 pub trait GEl: Elem + PartialOrd {
     /// (re + i im) / d * 2^e
     fn mk(re: i64, im: i64, e: i64, d: i64) -> Self;
+    /// re * 2^er + i * im * 2^ei (an arbitrary f64 / pair of f64 given exactly; mantissas below 2^53)
+    fn mk2(re: i64, er: i64, im: i64, ei: i64) -> Self;
     fn c(&self) -> (f64, f64);
     fn hex(&self) -> String;
     /// the exact value (exact element type only)
@@ -42,16 +44,19 @@ pub trait GEl: Elem + PartialOrd {
 }
 impl GEl for f64 {
     fn mk(re: i64, _im: i64, e: i64, d: i64) -> f64 { (if d == 1 { re as f64 } else { re as f64 / d as f64 }) * pow2(e) }
+    fn mk2(re: i64, er: i64, _im: i64, _ei: i64) -> f64 { re as f64 * pow2(er) }
     fn c(&self) -> (f64, f64) { (*self, 0.0) }
     fn hex(&self) -> String { bits(*self) }
 }
 impl GEl for Cmplx {
     fn mk(re: i64, im: i64, e: i64, d: i64) -> Cmplx { if d == 1 { Cmplx::new(re as f64 * pow2(e), im as f64 * pow2(e)) } else { Cmplx::new(re as f64 / d as f64 * pow2(e), im as f64 / d as f64 * pow2(e)) } }
+    fn mk2(re: i64, er: i64, im: i64, ei: i64) -> Cmplx { Cmplx::new(re as f64 * pow2(er), im as f64 * pow2(ei)) }
     fn c(&self) -> (f64, f64) { (self.real, self.imag) }
     fn hex(&self) -> String { format!("{}{}", bits(self.real), bits(self.imag)) }
 }
 impl GEl for Rat {
     fn mk(re: i64, _im: i64, e: i64, d: i64) -> Rat { if e != 0 || d != 1 { eprintln!("TOOL-ERROR exponent on an exact case"); std::process::exit(2) } Rat::int(re) }
+    fn mk2(_re: i64, _er: i64, _im: i64, _ei: i64) -> Rat { eprintln!("TOOL-ERROR float-encoded case on the exact type"); std::process::exit(2) }
     fn c(&self) -> (f64, f64) { (self.to_f64(), 0.0) }
     fn hex(&self) -> String { format!("{}/{}", self.n, self.d) }
     fn as_rat(&self) -> Rat { *self }
@@ -66,13 +71,16 @@ fn build_mat<T: GEl>(case: &Value) -> Matrix<T> {
     if re.len() != n * n || im.len() != n * n || ex.len() != n * n { eprintln!("TOOL-ERROR malformed gauss case {}", case); std::process::exit(2) }
     let div = case.get("adiv").and_then(|v| v.as_i64()).unwrap_or(1);
     let mut m = Matrix::<T>::new(n, n, T::from_ri(0, 0));
-    for i in 0..n { for j in 0..n { let k = i * n + j; m[(i, j)] = T::mk(re[k], im[k], ex[k], div); } }
+    // aie: separate binary exponents of the imaginary mantissas (entries given as exact f64 values)
+    let exi = if case.get("aie").is_some() { Some(opt_ivec(case, "aie", n * n)) } else { None };
+    for i in 0..n { for j in 0..n { let k = i * n + j; m[(i, j)] = match &exi { Some(ei) => T::mk2(re[k], ex[k], im[k], ei[k]), None => T::mk(re[k], im[k], ex[k], div) }; } }
     m
 }
 fn build_rhs<T: GEl>(case: &Value) -> Vector<T> {
     let n = getu(case, "n");
     let re = ivec(&case["b"]); let im = opt_ivec(case, "bi", n); let ex = opt_ivec(case, "be", n);
-    Vector::create((0..n).map(|k| T::mk(re[k], im[k], ex[k], 1)).collect())
+    let exi = if case.get("bie").is_some() { Some(opt_ivec(case, "bie", n)) } else { None };
+    Vector::create((0..n).map(|k| match &exi { Some(ei) => T::mk2(re[k], ex[k], im[k], ei[k]), None => T::mk(re[k], im[k], ex[k], 1) }).collect())
 }
 
 // ------------------------------------------------------------------ measurements (double-double; trusted)
@@ -203,7 +211,7 @@ fn is_rat<T: GEl>() -> bool { T::NAME == "rat" }
 /// FNV-1a hash of the operands (identifies the input in events that do not carry the matrix itself)
 fn operand_hash(case: &Value) -> String {
     let mut h: u64 = 0xcbf29ce484222325;
-    for k in ["a", "ai", "ae", "adiv", "b", "bi", "be", "steps"] { if let Some(v) = case.get(k) { for byte in format!("{}={};", k, v).bytes() { h ^= byte as u64; h = h.wrapping_mul(0x100000001b3); } } }
+    for k in ["a", "ai", "ae", "aie", "adiv", "b", "bi", "be", "bie", "steps"] { if let Some(v) = case.get(k) { for byte in format!("{}={};", k, v).bytes() { h ^= byte as u64; h = h.wrapping_mul(0x100000001b3); } } }
     format!("{:016x}", h)
 }
 /// the fields every event of a case carries
@@ -674,7 +682,7 @@ fn cond_ok(g: &Gm, _cx: bool) -> bool {
 pub fn gen(tier: &str, seed: u64, out: &mut Out) {
     let mut it = tier.split(':'); let t = it.next().unwrap_or("quick"); let which = it.next().unwrap_or("");
     let mut sink = Sink { out, cid: 0, counts: Default::default() };
-    if which != "c02" { gen_solve(t, seed, &mut sink); gen_solve_hard(t, seed, &mut sink); gen_seq(t, seed, "c01", &mut sink); }
+    if which != "c02" { gen_solve(t, seed, &mut sink); gen_solve_hard(t, seed, &mut sink); gen_seq(t, seed, "c01", &mut sink); gen_ill(t, seed, &mut sink); }
     if which != "c01" { gen_det(t, seed, &mut sink); gen_det_hard(t, seed, &mut sink); gen_seq(t, seed, "c02", &mut sink); }
     if std::env::var("GAUSS_COUNTS").is_ok() { for (k, v) in &sink.counts { eprintln!("{} {}", k, v); } }
 }
@@ -952,4 +960,100 @@ fn gen_seq(tier: &str, seed: u64, which: &str, sink: &mut Sink) {
         c["steps"] = Value::from(steps);
         sink.push(c);
     } } } }
+}
+
+// ------------------------------------------------------------------ ill-conditioned nonsingular systems (C01: backward stability is independent of conditioning)
+type Cf = (f64, f64);
+fn cf_mul(a: Cf, b: Cf) -> Cf { (a.0 * b.0 - a.1 * b.1, a.0 * b.1 + a.1 * b.0) }
+fn cf_add(a: Cf, b: Cf) -> Cf { (a.0 + b.0, a.1 + b.1) }
+/// x = m * 2^e exactly, |m| < 2^53
+fn split_f64(x: f64) -> (i64, i64) {
+    if x == 0.0 { return (0, 0); }
+    if !x.is_finite() { eprintln!("TOOL-ERROR non-finite generated entry"); std::process::exit(2) }
+    let bits = x.to_bits(); let neg = (bits >> 63) == 1; let ef = ((bits >> 52) & 0x7ff) as i64; let fr = (bits & ((1u64 << 52) - 1)) as i64;
+    let (mut m, mut e) = if ef == 0 { (fr, -1074) } else { (fr | (1i64 << 52), ef - 1075) };
+    while m & 1 == 0 { m >>= 1; e += 1; }
+    (if neg { -m } else { m }, e)
+}
+fn matvec_cf(a: &[Cf], x: &[Cf], n: usize) -> Vec<Cf> { (0..n).map(|i| (0..n).fold((0.0, 0.0), |s, j| cf_add(s, cf_mul(a[i * n + j], x[j])))).collect() }
+fn matmul_cf(a: &[Cf], b: &[Cf], n: usize) -> Vec<Cf> { let mut c = vec![(0.0, 0.0); n * n]; for i in 0..n { for j in 0..n { for k in 0..n { c[i * n + j] = cf_add(c[i * n + j], cf_mul(a[i * n + k], b[k * n + j])); } } } c }
+/// Householder reflector I - 2 v v^* / (v^* v) for a random (complex) v
+fn householder(rng: &mut StdRng, n: usize, cx: bool) -> Vec<Cf> {
+    let v: Vec<Cf> = (0..n).map(|_| (rng.gen_range(-1.0..1.0), if cx { rng.gen_range(-1.0..1.0) } else { 0.0 })).collect();
+    let nv: f64 = v.iter().map(|z| z.0 * z.0 + z.1 * z.1).sum::<f64>().max(1e-3);
+    let mut q = vec![(0.0, 0.0); n * n];
+    for i in 0..n { for j in 0..n { let p = cf_mul(v[i], (v[j].0, -v[j].1)); q[i * n + j] = ((if i == j { 1.0 } else { 0.0 }) - 2.0 * p.0 / nv, -2.0 * p.1 / nv); } }
+    q
+}
+/// certificate of nonsingularity: elimination with partial pivoting in double-double (error ~1e-30) never meets a pivot
+/// below 1e-22 * max|a|
+fn dd_nonsingular(a: &[Cf], n: usize) -> bool {
+    let mut m: Vec<CDD> = a.iter().map(|z| CDD::from(z.0, z.1)).collect();
+    let amax = mat_norm_max(&m);
+    if !(amax > 0.0) || !amax.is_finite() { return false; }
+    for k in 0..n {
+        let mut p = k; let mut best = m[k * n + k].abs();
+        for i in k + 1..n { let v = m[i * n + k].abs(); if v > best { best = v; p = i; } }
+        if !(best > 1e-22 * amax) { return false; }
+        if p != k { for j in 0..n { m.swap(k * n + j, p * n + j); } }
+        let piv = m[k * n + k];
+        for i in k + 1..n { let f = cdiv(m[i * n + k], piv); for j in k..n { let t = f.mul(m[k * n + j]); m[i * n + j] = m[i * n + j].sub(t); } }
+    }
+    true
+}
+fn push_float_solve(sink: &mut Sink, ty: &str, fam: &str, n: usize, a: &[Cf], b: &[Cf]) -> bool {
+    if !dd_nonsingular(a, n) { return false; }
+    let cx = ty == "cx";
+    let enc = |v: &[Cf]| -> (Vec<i64>, Vec<i64>, Vec<i64>, Vec<i64>) { let mut r = (vec![], vec![], vec![], vec![]); for z in v { let (m, e) = split_f64(z.0); let (mi, ei) = split_f64(if cx { z.1 } else { 0.0 }); r.0.push(m); r.1.push(e); r.2.push(mi); r.3.push(ei); } r };
+    let (am, ae, aim, aie) = enc(a); let (bm, be, bim, bie) = enc(b);
+    if ae.iter().chain(aie.iter()).chain(be.iter()).chain(bie.iter()).any(|e| *e < -1000 || *e > 900) { return false; }
+    let mut c = json!({"ty": ty, "kind": "solve", "fam": fam, "n": n, "a": {"r": n, "c": n, "d": am}, "ae": ae, "b": bm, "be": be});
+    if cx { c["ai"] = json!({"r": n, "c": n, "d": aim}); c["aie"] = json!(aie); c["bi"] = json!(bim); c["bie"] = json!(bie); }
+    sink.push(c); true
+}
+
+/// Hilbert, Lotkin, Cauchy, Vandermonde on clustered nodes, Pascal, nearly parallel rows / columns, prescribed singular
+/// values (cond up to 1e14) - each with b = A * x_true for an O(1) x_true and with a random b.  No conditioning limit:
+/// the backward-error bound of GEPP does not depend on cond(A).
+fn gen_ill(tier: &str, seed: u64, sink: &mut Sink) {
+    let quick = tier == "quick";
+    let mut rng = rng(seed, 707);
+    let reps = if quick { 1 } else { 6 };
+    for _rep in 0..reps { for n in 3..=8usize { for ty in ["f64", "cx"] {
+        let cx = ty == "cx";
+        let rnd = |rng: &mut StdRng| -> Cf { (rng.gen_range(-1.0..1.0), if cx { rng.gen_range(-1.0..1.0) } else { 0.0 }) };
+        let mut fams: Vec<(String, Vec<Cf>)> = Vec::new();
+        let real = |f: &dyn Fn(usize, usize) -> f64| -> Vec<Cf> { let mut v = Vec::new(); for i in 0..n { for j in 0..n { v.push((f(i, j), 0.0)); } } v };
+        // complexified: A + i * (A with shifted indices) keeps the ill-conditioning pattern with genuinely complex entries
+        let cplx = |f: &dyn Fn(usize, usize) -> f64| -> Vec<Cf> { let mut v = Vec::new(); for i in 0..n { for j in 0..n { v.push((f(i, j), if cx { 0.5 * f(i + 1, j + 1) } else { 0.0 })); } } v };
+        let hilb = |i: usize, j: usize| 1.0 / ((i + j + 1) as f64);
+        fams.push(("hilbert".into(), real(&hilb))); if cx { fams.push(("hilbert_cx".into(), cplx(&hilb))); }
+        fams.push(("lotkin".into(), cplx(&|i, j| if i == 0 { 1.0 } else { 1.0 / ((i + j + 1) as f64) })));
+        fams.push(("cauchy".into(), cplx(&|i, j| 1.0 / ((i + 1) as f64 + j as f64 + 0.5))));
+        for sh in [4i64, 6] { fams.push((format!("vander{}", sh), real(&|i, j| (1.0 + (i as f64) * pow2(-sh)).powi(j as i32)))); }
+        { let bin = |i: usize, j: usize| { let mut c = 1.0f64; for k in 0..j { c = c * ((i + j - k) as f64) / ((k + 1) as f64); } c.round() };
+          let s = rng.gen_range(-8..=8i64); fams.push(("pascal".into(), real(&|i, j| bin(i, j) * pow2(s * (i as i64 % 2))))); }
+        // nearly parallel rows / columns: u v^T + t B
+        for t in [20i64, 30, 38, 45] {
+            let u: Vec<Cf> = (0..n).map(|_| { let z = rnd(&mut rng); (z.0 + 1.5, z.1) }).collect(); let v: Vec<Cf> = (0..n).map(|_| { let z = rnd(&mut rng); (z.0 + 1.5, z.1) }).collect();
+            let b: Vec<Cf> = (0..n * n).map(|_| (rng.gen_range(-9..=9) as f64, if cx { rng.gen_range(-9..=9) as f64 } else { 0.0 })).collect();
+            let mut a = Vec::new(); for i in 0..n { for j in 0..n { let p = cf_mul(u[i], v[j]); a.push((p.0 + pow2(-t) * b[i * n + j].0, p.1 + pow2(-t) * b[i * n + j].1)); } }
+            fams.push((format!("parallel{}", t), a));
+        }
+        // prescribed singular values: Q1 * diag(sigma) * Q2, geometric from 1 to 10^-c, or all 1 except one / two small ones
+        for c in [8i32, 10, 12, 14] { for mode in 0..2 {
+            let sig: Vec<f64> = (0..n).map(|k| if mode == 0 { 10f64.powf(-(c as f64) * (k as f64) / ((n - 1) as f64)) } else if k + 1 + (c as usize % 3 % 2) >= n { 10f64.powi(-c) } else { 1.0 }).collect();
+            let q1 = householder(&mut rng, n, cx); let q2 = householder(&mut rng, n, cx);
+            let d: Vec<Cf> = (0..n * n).map(|k| if k / n == k % n { (sig[k / n], 0.0) } else { (0.0, 0.0) }).collect();
+            fams.push((format!("sv{}_{}", c, mode), matmul_cf(&matmul_cf(&q1, &d, n), &q2, n)));
+        } }
+        for (name, a) in &fams {
+            let xt: Vec<Cf> = (0..n).map(|_| { let z = rnd(&mut rng); (if z.0 < 0.0 { z.0 - 0.5 } else { z.0 + 0.5 }, z.1) }).collect();
+            push_float_solve(sink, ty, &format!("ill_{}+b_Ax", name), n, a, &matvec_cf(a, &xt, n));
+            let ones: Vec<Cf> = vec![(1.0, 0.0); n];
+            if rng.gen_bool(0.5) { push_float_solve(sink, ty, &format!("ill_{}+b_A1", name), n, a, &matvec_cf(a, &ones, n)); }
+            let br: Vec<Cf> = (0..n).map(|_| rnd(&mut rng)).collect();
+            push_float_solve(sink, ty, &format!("ill_{}+b_rand", name), n, a, &br);
+        }
+    } } }
 }
